@@ -141,6 +141,7 @@ class CallsMixin:
             if key in stack or len(stack) >= 4:
                 raise Unsupported('recursive or too deep inlining of %s @%s' % (key, line))
             stack.append(key)
+            if os.environ.get('GVC_DEBUG'): print('INLINE', key, '@', line)
             try:
                 return self.inline_call(st, key, recv, argv, e)
             finally:
@@ -403,9 +404,12 @@ class CallsMixin:
                     self.havoc_target(st, env_post, ('id', m.group(1)))
         for cl in c.get('ensures'):
             try:
-                st.assume(self.sev_bool(env_post, cl.expr))
+                _a = self.sev_bool(env_post, cl.expr)
+                if os.environ.get('GVC_DEBUG') and 'Dce' in key: print('ASSUME at call of %s: %s => %s' % (key, cl.text, _a))
+                st.assume(_a)
             except Unsupported as ex:
                 if 'unknown name' in str(ex):
+                    if os.environ.get('GVC_DEBUG'): print('DROPPED at call of %s: %s (%s)' % (key, cl.text, ex))
                     continue          # a clause about the callee's locals: not visible to callers
                 raise
         self.after_call_hooks(st, key, rb, old, e)
